@@ -4781,17 +4781,32 @@ pub mod verif_hooks_onion {
 	/// `build_onion_payloads`, each payload serialized as it is placed into the packet.
 	pub fn payment_payloads(
 		path: &Path, recipient_onion: &RecipientOnionFields, cur_block_height: u32,
-		keysend_preimage: &Option<PaymentPreimage>,
+		keysend_preimage: &Option<PaymentPreimage>, invoice_request: Option<&InvoiceRequest>,
 	) -> Result<(Vec<Vec<u8>>, u64, u32), APIError> {
 		let (payloads, value_msat, cltv) = build_onion_payloads(
 			path,
 			recipient_onion,
 			cur_block_height,
 			keysend_preimage,
-			None,
+			invoice_request,
 			None,
 		)?;
 		Ok((payloads.iter().map(|p| p.encode()).collect(), value_msat, cltv))
+	}
+
+	/// `next_hop_pubkey`: the ephemeral key or blinding point the next hop sees.
+	pub fn next_pubkey<T: secp256k1::Verification>(
+		secp_ctx: &Secp256k1<T>, curr_pubkey: PublicKey, shared_secret: &[u8],
+	) -> Result<PublicKey, secp256k1::Error> {
+		next_hop_pubkey(secp_ctx, curr_pubkey, shared_secret)
+	}
+
+	/// `update_fail_htlc_wire_len` of a failure packet given as bytes.
+	pub fn fail_wire_len(data: Vec<u8>, attribution_data: Option<Vec<u8>>) -> usize {
+		update_fail_htlc_wire_len(&OnionErrorPacket {
+			data,
+			attribution_data: attr_from_bytes(&attribution_data),
+		})
 	}
 
 	struct RawPayload(Vec<u8>);
